@@ -6,9 +6,16 @@ Runner.v + Parallel.v, event for event.  Independent oracle: on the implementati
 task start is preceded by the final report of each task it depends on (dependencies read from the
 real Task objects after the run, so calc_dep results count too).  Real multiprocessing runs are sampled
 and judged by the oracle only.
+
+Spelling part (c01_spelling.py): the target and the file_dep of every file edge are written independently in
+every text variant ('./x', 'a//b', 'a/./b', 'a/up/../b', 'a/b/', absolute) and python type (str, PurePath,
+Path, PurePosixPath), also in the file_dep a calc_dep task returns; the demanded edges are computed from the
+declarations (key equality, pathlib as oracle), the table TaskControl builds and the whole run are compared
+with Model/Implicit.v control_init (+ runner models), and generated dodo files are run through the command
+line with real files and history.
 """
 import itertools, os, sys, tempfile, time
-import common, runlib, delayed_cli
+import common, runlib, delayed_cli, c01_spelling
 from common import Outcome
 
 
@@ -151,8 +158,10 @@ def run(ctx):
     part_real_processes(ctx, out)
     delayed_cli.delayed_cli_part(ctx, out, 'C01')
     out.evaluations = len(cases) + out.extra.get('real_multiprocessing_runs_oracle_only', 0) + out.extra.get('delayed_cli_runs', 0)
+    # targets / file_dep written in every spelling and python type (c01_spelling.py; Model/Implicit.v)
+    c01_spelling.spelling_part(ctx, out)
     bad = common.compare_with_model(ctx, runlib.PRE, cases)
-    out.traces_validated = len(cases)
+    out.traces_validated += len(cases)
     for i, m in bad:
         c = cases[i]
         out.mismatches.append(dict(case=dict(tasks=c['res']['rows'], selected=c['case']['selected'], flavour=c['case']['flavour'], k=c['case']['k'],
@@ -165,7 +174,8 @@ def run(ctx):
     out.assumptions = ['commutation: main-thread code between two blocking points and one worker step commute except through the two queues (scheduler granularity)',
                        'process flavour is driven in threads with a per-worker shallow copy of the runner (own teardown_list, own reporter attribute); real multiprocessing is sampled and judged by the oracle only',
                        'the dependency manager is a recording fake at the runner seam (status/ignore/values per task are inputs of a case)']
-    out.extra['trusted_base'] = ['deterministic scheduler harness/runlib.py (FakeQueue/FakeChild)', 'wake_rank/calc_rank oracles recorded from the run (iteration order of Python sets)']
+    out.extra['trusted_base'] = ['deterministic scheduler harness/runlib.py (FakeQueue/FakeChild)', 'wake_rank/calc_rank oracles recorded from the run (iteration order of Python sets)',
+                                 'spelling part: pathlib str(PurePath(text)) is the path_str oracle; the iteration order of the file_dep set (dc_fd_order) is computed by the harness from the declared keys with a Python set of its own']
     return out
 
 
